@@ -49,7 +49,13 @@ MUTATIONS = [
     ("add_nodes", ("b", "c"), "gen"),
     # a bulk call with four entries (the two link objects of the universe each sit on two edges afterwards)
     ("add_links", (("a", "L1", "b"), ("b", "L2", "c"), ("c", "L1", "a"), ("a", "L2", "a"))),
+    # keyword forms of the calls
+    ("add_link_kw", "b", "L1", "c"),
+    ("add_origin_kw", "O2", "b"),
+    ("add_destination_kw", "D2", "c"),
+    ("add_path_kw", ("b", "L1", "a"), "O1", "D2"),
 ]
+CORE_MUTATIONS = MUTATIONS[:21]  # used in the later positions of the longest histories (the first position is always full)
 READS = list(LOOKUPS)
 NONE, ALL = "-", "*"
 
@@ -75,11 +81,18 @@ def do_reads(net, U, which, st, problems, hist, last_mut):
             problems.append((f"C08/stale/{name}/after/{last_mut}", msg))
 
 
+class UserNetwork(M.Network):
+    """A trivial user-defined subclass of Network (the memoised lookups are inherited)."""
+
+
+NETWORK_CLASS = [M.Network]
+
+
 def run_history(hist, st: Stats):
     """hist: list of ('m', op) / ('r', which); 'm2' / 'r2' address a SECOND network that is made of the same
     element objects (one universe).  Returns problems [(sig, msg)]."""
     U = Universe(STD_UNIVERSE)
-    net = M.Network(name="net")
+    net = NETWORK_CLASS[0](name="net")
     net2 = None
     problems = []
     last_mut = "init"
@@ -104,6 +117,20 @@ def run_history(hist, st: Stats):
     return problems, net, U
 
 
+def worker_a_subclass(item):
+    """Explorer A on a user-defined subclass of Network."""
+    NETWORK_CLASS[0] = UserNetwork
+    try:
+        st = worker_a(item)
+    finally:
+        NETWORK_CLASS[0] = M.Network
+    for sig in list(st.violations):
+        st.violations["C08/network-subclass/" + sig[4:]] = st.violations.pop(sig)
+    for sig in list(st.sig_counts):
+        st.sig_counts["C08/network-subclass/" + sig[4:]] = st.sig_counts.pop(sig)
+    return st
+
+
 def worker_c(item):
     """Two networks over ONE universe of element objects (nodes, links, origins and destinations are plain objects and
     may be used in several networks): k mutations on the first, all lookups read, k on the second, all lookups of both
@@ -113,10 +140,10 @@ def worker_c(item):
     for m1 in firsts:
         if k == "interleaved":
             hs = [[("m", m1), ("r", ALL), ("m2", m2), ("r2", ALL), ("r", ALL), ("m", m3), ("r", ALL), ("r2", ALL)]
-                  for m2 in MUTATIONS for m3 in MUTATIONS]
+                  for m2 in CORE_MUTATIONS for m3 in CORE_MUTATIONS]
         else:
             hs = []
-            for ms in itertools.product(MUTATIONS, repeat=2 * k - 1):
+            for ms in itertools.product(CORE_MUTATIONS if k > 1 else MUTATIONS, repeat=2 * k - 1):
                 a, b = (m1,) + ms[:k - 1], ms[k - 1:]
                 hs.append([("m", m) for m in a] + [("r", ALL)] + [("m2", m) for m in b] + [("r2", ALL), ("r", ALL)])
         for hist in hs:
@@ -135,7 +162,7 @@ def worker_a(item):
     firsts, k, menus = item
     st = Stats()
     for m1 in firsts:
-        rest_m = [MUTATIONS] * (k - 1)
+        rest_m = [MUTATIONS if k <= 2 else CORE_MUTATIONS] * (k - 1)
         for ms in itertools.product(*rest_m):
             muts = (m1,) + ms
             for rs in itertools.product(*menus[: k - 1]):
@@ -258,6 +285,9 @@ def explore(tier, seed, nproc):
         r = run_shards(worker_a, items, nproc)
         a_hist[k] = r.c.get("states", 0)
         st.merge(r)
+    sub = run_shards(worker_a_subclass, [([m], 2, [full]) for m in firsts], nproc)
+    a_hist["2 (on a user subclass of Network)"] = sub.c.get("states", 0)
+    st.merge(sub)
     c_hist = {}
     for k in ((1, 2, "interleaved") if tier == "quick" else (1, 2, "interleaved")):
         r = run_shards(worker_c, [([m], k) for m in firsts], nproc)
@@ -279,6 +309,8 @@ def explore(tier, seed, nproc):
     }
     assumptions = [
         "universe of 3 nodes, 2 links, 2 origins, 2 destinations; longer histories than the bound are not explored",
+        "27 mutating calls; in the longest histories of explorer A (length >= 3) and in explorer C the positions after the "
+        "first range over the first 21 of them (without the generator add_nodes, the four-entry bulk call and the keyword forms)",
         "explorer B merges states on (graph, memoised names) - sound only while memoisation lives in the instance "
         "__dict__ (explorer A makes no such assumption)",
         "where one element object is attached at two places the dict-shaped lookups are ambiguous: any pair present "
